@@ -9,8 +9,8 @@ import (
 )
 
 // chunkings returns every way of splitting n content bytes into non-empty
-// chunks, each additionally with one empty chunk inserted at the front, at the
-// back, and after the first chunk.
+// chunks, each additionally with one empty chunk (once as an empty slice, once
+// as a nil View) inserted at the front, at the back, and after the first chunk.
 func chunkings(n int) [][]int {
 	var comps [][]int
 	var rec func(rem int, cur []int)
@@ -32,6 +32,12 @@ func chunkings(n int) [][]int {
 		if len(c) >= 1 {
 			m := append([]int{c[0], 0}, c[1:]...)
 			out = append(out, m)
+		}
+		// the same with the empty chunk being a nil View
+		out = append(out, append([]int{-1}, c...))
+		out = append(out, append(append([]int(nil), c...), -1))
+		if len(c) >= 1 {
+			out = append(out, append([]int{c[0], -1}, c[1:]...))
 		}
 	}
 	return out
@@ -112,9 +118,11 @@ func genVV(rt *rapid.T) Case {
 	var c Case
 	total := 0
 	for i := 0; i < nch; i++ {
-		l := rapid.OneOf(rapid.Just(0), rapid.IntRange(1, 4), rapid.IntRange(1, 24)).Draw(rt, "chunk")
+		l := rapid.OneOf(rapid.Just(0), rapid.Just(-1), rapid.IntRange(1, 4), rapid.IntRange(1, 24)).Draw(rt, "chunk")
 		c.Chunks = append(c.Chunks, l)
-		total += l
+		if l > 0 {
+			total += l
+		}
 	}
 	nops := rapid.IntRange(1, 12).Draw(rt, "nops")
 	for i := 0; i < nops; i++ {
